@@ -383,3 +383,30 @@ c05_bool!(c05_bool_and_paren_or, |a, b, c, d, c0, c1, c2, c3, and0, or0, or1| {
     and0[1] = Filter::Atom(FilterAtom::Filter { expr: tbox(&mut or1[0]), not: false });
     Filter::And(cvec(&mut and0, 2))
 }, a && (b || c));
+
+// existence test over a multi-node query: `?@.*` is true iff the child has at least one child
+macro_rules! c05_exist_wild {
+    ($name:ident, $n:expr) => {
+        proof!($name, 6, {
+            let root = Mini::Null;
+            let mut sc = Scratch::new();
+            sc.elems[0] = Mini::Null;
+            sc.elems[1] = Mini::Bool(kani::any());
+            let child = sc.arr_c($n);
+            let not: bool = kani::any();
+            let mut seg = m_wild();
+            let mut t = Test::RelQuery(seg_vec(&mut seg, 1));
+            let atom = FilterAtom::Test { expr: tbox(&mut t), not };
+            let r = atom.process(State::data(&root, Data::Ref(Pointer::empty(&child))));
+            let got = matches!(r.data, Data::Value(Mini::Bool(true)));
+            assert!(got == (($n > 0) ^ not), "`?@.*` must be true exactly when the node has a child (whatever the children's values)");
+            kani::cover!(not, "negated");
+            kani::cover!(!not, "plain");
+            forget(r);
+            forget(atom);
+            forget(sc);
+        });
+    };
+}
+c05_exist_wild!(c05_exist_wild_n0, 0);
+c05_exist_wild!(c05_exist_wild_n2, 2);
